@@ -137,7 +137,26 @@ class Fault(Exception):
     """Injected fault in user code (C18)."""
 
 
-EXC = {"E0": E0, "E1": E1, "E2": E2, "E3": E3, "Fault": Fault}
+class EF(Exception):
+    """An exception whose instances are FALSY (an "error collection" raised empty): code that writes
+    `if exception:` where it means `if exception is not None:` mistakes it for success."""
+
+    def __bool__(self):
+        return False
+
+    def __len__(self):
+        return 0
+
+
+EXC = {"E0": E0, "E1": E1, "E2": E2, "E3": E3, "Fault": Fault, "EF": EF}
+
+
+def verif_orig_raise_site(e):
+    raise e
+
+
+def verif_unrelated_site():
+    raise KeyError("an unrelated exception being handled while a future is completed")
 
 
 def jsonable(v, depth=0):
@@ -883,6 +902,12 @@ class World(object):
                             names.append(me.name)
                         tb = tb.tb_next
                     out["tb_fns"] = names
+                    tbn = []
+                    tb = ex.__traceback__
+                    while tb is not None and len(tbn) < 40:
+                        tbn.append(tb.tb_frame.f_code.co_name)
+                        tb = tb.tb_next
+                    out["tb_names"] = tbn
                 else:
                     v = f.result(0)
                     out["value"] = jsonable(v)
@@ -918,7 +943,18 @@ class World(object):
                     e = EXC[op[3] if len(op) > 3 else "E2"]()
                     e.tag = ("src", op[1])
                     self.raised.setdefault(jsonable(e.tag).__repr__(), []).append(e)
-                    f.set_exception(e)
+                    try:
+                        verif_orig_raise_site(e)  # a real exception: it has been raised, it carries a traceback
+                    except Exception:
+                        pass
+                    if len(op) > 4 and op[4] == "in_handler":
+                        # the completing thread is busy handling a DIFFERENT exception at this moment
+                        try:
+                            verif_unrelated_site()
+                        except KeyError:
+                            f.set_exception(e)
+                    else:
+                        f.set_exception(e)
                 elif kind == "fn":
                     f.set_result(self.fn(op[1] + ".fn", op[3]))
                 elif kind == "running":
